@@ -48,6 +48,8 @@ type Opts struct {
 	LocationHeavy    bool     // half of the router cases are location tests (shared location hierarchy)
 	CaseBias         []string // router test types that make up half of the drawn cases
 	BrokenFlow       bool     // the assets may hold a flow whose definition does not load (target of enter_flow actions only)
+	ChainHeavy       bool     // half of the worlds are straight chains: 2-3 actions per node, every exit leads to the next node, few waits - every run executes every node, so concurrent runs of one flow use each shared structure at about the same time
+	WaitHeavy        bool     // in two thirds of the worlds the first flow starts with a waiting router and most routers wait (long resume histories)
 	TranslateMissing bool     // translations of quick_replies/attachments that the base language lacks, referencing globals/fields
 }
 
@@ -243,6 +245,10 @@ type gen struct {
 	flows    []Flow
 	flowDefs []M
 	groups   []M
+	// waitHeavy: this world's first flow starts with a waiting router and most routers wait
+	waitHeavy bool
+	// chain: flows are straight chains (see Opts.ChainHeavy)
+	chain bool
 }
 
 func (g *gen) uuid(kind string) string {
@@ -628,7 +634,15 @@ func (g *gen) router(flowType string, nodeInfo *Node) (M, []M) {
 		r["result_name"] = g.resultName()
 	}
 	canWait := !g.o.NoWaits && flowType != "messaging_background"
-	if canWait && rapid.IntRange(0, 2).Draw(g.t, "haswait") > 0 {
+	wantWait := false
+	if g.chain {
+		wantWait = rapid.IntRange(0, 7).Draw(g.t, "haswaitchain") == 0
+	} else if g.waitHeavy {
+		wantWait = rapid.IntRange(0, 5).Draw(g.t, "haswaitheavy") > 0
+	} else {
+		wantWait = rapid.IntRange(0, 2).Draw(g.t, "haswait") > 0
+	}
+	if canWait && wantWait {
 		w := M{"type": "msg"}
 		nodeInfo.HasWait = true
 		nodeInfo.WaitType = "msg"
@@ -657,6 +671,12 @@ func (g *gen) router(flowType string, nodeInfo *Node) (M, []M) {
 func (g *gen) flow(idx int, uuids, names, types []string) {
 	flowType := types[idx]
 	nNodes := rapid.IntRange(0, g.o.MaxNodes).Draw(g.t, "nnodes")
+	if g.waitHeavy && idx == 0 && nNodes == 0 {
+		nNodes = 1
+	}
+	if g.chain && nNodes < g.o.MaxNodes {
+		nNodes = g.o.MaxNodes
+	}
 	if nNodes == 0 && rapid.IntRange(0, 3).Draw(g.t, "reallyempty") > 0 {
 		nNodes = 1
 	}
@@ -672,6 +692,9 @@ func (g *gen) flow(idx int, uuids, names, types []string) {
 		info := Node{UUID: nodeUUIDs[i]}
 		n := M{"uuid": nodeUUIDs[i]}
 		nActions := rapid.IntRange(0, 3).Draw(g.t, "nactions")
+		if g.chain && nActions < 2 {
+			nActions = 2
+		}
 		actions := []M{}
 		for j := 0; j < nActions; j++ {
 			a := g.action(flowType, uuids, names)
@@ -699,6 +722,9 @@ func (g *gen) flow(idx int, uuids, names, types []string) {
 		}
 		var exits []M
 		hasRouter := rapid.IntRange(0, 2).Draw(g.t, "hasrouter") > 0
+		if g.waitHeavy && idx == 0 && i == 0 {
+			hasRouter = true
+		}
 		if hasRouter {
 			var r M
 			r, exits = g.router(flowType, &info)
@@ -734,6 +760,10 @@ func (g *gen) flow(idx int, uuids, names, types []string) {
 		for _, e := range exits {
 			k := rapid.IntRange(0, 9).Draw(g.t, "destk")
 			switch {
+			case g.chain:
+				if i+1 < nNodes {
+					e["destination_uuid"] = nodeUUIDs[i+1]
+				}
 			case k < 2:
 				// no destination
 			case g.o.Adversarial && k < 5:
@@ -813,6 +843,12 @@ func Draw(t *rapid.T, o Opts) *World {
 		o.MaxNodes = 5
 	}
 	g := &gen{t: t, o: o}
+	if o.WaitHeavy {
+		g.waitHeavy = rapid.IntRange(0, 2).Draw(t, "waitheavy") > 0
+	}
+	if o.ChainHeavy {
+		g.chain = rapid.Bool().Draw(t, "chain")
+	}
 	g.groups = append([]M{}, staticGroups...)
 	if o.QueryGroups {
 		pool := o.GroupQueries
@@ -891,6 +927,9 @@ func StaticGroups() []M { return staticGroups }
 
 // Channels returns the fixed channels.
 func Channels() []M { return channels }
+
+// Locations returns the location hierarchy every world carries
+func Locations() []M { return locations }
 
 // MsgTemplates returns the message template assets.
 func MsgTemplates() []M { return msgTemplates }
